@@ -1,0 +1,40 @@
+//go:build verif
+
+package calcium
+
+import (
+	"context"
+
+	"github.com/projecteru2/core/discovery/helium"
+	"github.com/projecteru2/core/resource"
+	"github.com/projecteru2/core/store"
+	"github.com/projecteru2/core/types"
+	"github.com/projecteru2/core/utils"
+	"github.com/projecteru2/core/wal"
+)
+
+// NewForVerif assembles a Calcium exactly as New does, but over an injected store
+// and resource manager, and lets the caller wrap the WAL (simulation seams).
+func NewForVerif(ctx context.Context, config types.Config, stor store.Store, rmgr resource.Manager, withWatcher bool, wrapWAL func(wal.WAL) wal.WAL) (*Calcium, error) {
+	pool, err := utils.NewPool(config.MaxConcurrency)
+	if err != nil {
+		return nil, err
+	}
+	cal := &Calcium{store: stor, config: config, rmgr: rmgr, pool: pool}
+	if withWatcher {
+		cal.watcher = helium.New(ctx, config.GRPCConfig, stor)
+	}
+	if cal.wal, err = enableWAL(config, cal, stor); err != nil {
+		return nil, err
+	}
+	if wrapWAL != nil {
+		cal.wal = wrapWAL(cal.wal)
+	}
+	if cal.identifier, err = config.Identifier(); err != nil {
+		return nil, err
+	}
+	return cal, nil
+}
+
+// WALForVerif exposes the WAL of this instance.
+func (c *Calcium) WALForVerif() wal.WAL { return c.wal }
